@@ -97,6 +97,7 @@ KINDS = {
     "l1d_vec": Kind("l1d_vec", lambda: adaptive.Learner1D(f1_vec, bounds=(-1.0, 1.0)), f1_vec, _rp1),
     "lnd2": Kind("lnd2", lambda: adaptive.LearnerND(f2, bounds=[(-1.0, 1.0), (-1.0, 1.0)]), f2, _rp2),
     "lnd3": Kind("lnd3", lambda: adaptive.LearnerND(f3, bounds=[(-1.0, 1.0)] * 3), f3, _rp3),
+    "l2d": Kind("l2d", lambda: adaptive.Learner2D(f2, bounds=[(-1.0, 1.0), (-1.0, 1.0)]), f2, _rp2),
     "avg": Kind("avg", lambda: adaptive.AverageLearner(fseed, atol=0.01, rtol=0.05), fseed, lambda rng: rng.randrange(0, 40)),
     "avg1d": Kind("avg1d", lambda: adaptive.AverageLearner1D(fseedx, bounds=(-1.0, 1.0), min_samples=3, max_samples=12),
                   fseedx, lambda rng: (rng.randrange(0, 8), round(rng.uniform(-1, 1), 1))),
